@@ -151,6 +151,26 @@ where
 	let mut sl = slate.clone();
 	let mut context = w.get_private_context(keychain_mask, sl.id.as_bytes())?;
 	check_ttl(w, &sl)?;
+	// Which flow is being completed is decided by what this wallet stored when it started the
+	// transaction, not by the state field of the reply (which the counterparty controls): the
+	// invoice path neither restores the agreed fee nor checks a requested payment proof.
+	// - a send this wallet initiated: inputs selected (or to be selected late), no excess
+	//   calculated on behalf of an invoice
+	// - an invoice this wallet issued: nothing selected, or (paid by this wallet itself) the
+	//   merged context written by `process_invoice_tx`, which keeps the invoice side's key
+	//   as its initial key
+	let initiated_send = context.calculated_excess.is_none()
+		&& (!context.input_ids.is_empty() || context.late_lock_args.is_some());
+	let issued_invoice = context.late_lock_args.is_none()
+		&& match context.calculated_excess {
+			None => context.input_ids.is_empty(),
+			Some(_) => context.initial_sec_key != context.sec_key,
+		};
+	if (sl.state == SlateState::Invoice2 && !issued_invoice)
+		|| (sl.state == SlateState::Standard2 && !initiated_send)
+	{
+		return Err(Error::SlateState);
+	}
 	if sl.state == SlateState::Invoice2 {
 		// Add our contribution to the offset
 		if context.calculated_excess.is_some() {
